@@ -1,4 +1,227 @@
+//! C20 — date and number formatters (`ohkami_lib::time::imf_fixdate`, `ohkami_lib::num::{itoa, hexized, hexized_bytes}`).
+//!
+//! A scenario is a *batch description* printed by TLC (specs/FmtGen.tla) or by `gen` below:
+//!   {"kind":"days","from":a,"to":b,"sod":s,"full":0|1}      every day number a..=b at second-of-day s
+//!   {"kind":"daylist","days":[..],"sod":s,"full":..}        the listed day numbers
+//!   {"kind":"secs","day":d,"from":a,"to":b,"full":..}       every second a..=b of day d
+//!   {"kind":"ts-random","seed":k,"n":n,"full":..}           n seeded random instants in [0, 253402300799]
+//!   {"kind":"num-range","fn":f,"from":a,"to":b}             every n in a..=b   (f: itoa | hexized | hexized_bytes)
+//!   {"kind":"num-list","fn":f,"vals":[[l0,l1,l2,l3],..]}    the listed 64-bit values (base-2^16 limbs, least significant first)
+//!   {"kind":"num-random","fn":f,"seed":k,"n":n}             n seeded random 64-bit values (every bit length)
+//!   {"kind":"wire-cl","sizes":[..]}                         a real `Response::OK().with_text(<n bytes>)` sent through the real
+//!                                                           `Response::send`: the Content-Length value (itoa) and the Date header
+//!   {"kind":"wire-chunk","sizes":[..]}                      a real one-message SSE response: the chunk-size line (hexized_bytes,
+//!                                                           stripped by the writer) and the number of bytes that follow it
+//!
+//! For every element the REAL function is called and its output is *projected*, never judged:
+//!   dates: the 29-byte string is cut at the fixed field positions of `Www, DD Mon YYYY HH:MM:SS GMT`;
+//!          columns wd, dd, mon, yy, hh, mi, ss (numbers: strict all-digit parse, -1 otherwise), len, frame (the
+//!          bytes between the fields, concatenated) and, when "full":1, the whole string as byte codes.
+//!   numbers: the output as byte codes; random values are echoed as limbs computed by shifts.
+//! A panic inside one element is recorded for that element (len -1 / out [-1]) and the batch continues.
+//! Trusted concretisation: timestamp = 86400*day + sod; value = l0 | l1<<16 | l2<<32 | l3<<48.
+use crate::util::{arr, i, s, Rng};
 use serde_json::{json, Value};
-pub fn run(_scn: &Value) -> Value { json!({"kind": "unimplemented"}) }
-#[allow(dead_code)]
-pub fn gen(_rng: &mut crate::util::Rng, i: usize) -> Value { json!({"id": i}) }
+
+const LAST_DAY: u64 = 2_932_896; // 9999-12-31
+
+#[derive(Default)]
+struct DateCols { day: Vec<i64>, sod: Vec<i64>, wd: Vec<String>, dd: Vec<i64>, mon: Vec<String>, yy: Vec<i64>, hh: Vec<i64>, mi: Vec<i64>, ss: Vec<i64>, len: Vec<i64>, frame: Vec<String>, chars: Vec<Vec<i64>> }
+
+/// strict: every byte an ASCII digit (so "+6", " 6", "6 " are -1)
+fn digits(b: &[u8]) -> i64 {
+    if b.is_empty() || !b.iter().all(|c| c.is_ascii_digit()) { return -1 }
+    b.iter().fold(0i64, |a, c| a * 10 + (c - b'0') as i64)
+}
+fn text(b: &[u8]) -> String { b.iter().map(|&c| if (0x20..0x7f).contains(&c) && c != b'"' && c != b'\\' { c as char } else { '?' }).collect() }
+fn cut(b: &[u8], from: usize, to: usize) -> &[u8] { let n = b.len(); &b[from.min(n)..to.min(n)] }
+
+fn one_date(c: &mut DateCols, day: u64, sod: u64, full: bool) {
+    let ts = 86_400 * day + sod;
+    let r = std::panic::catch_unwind(|| ohkami_lib::time::imf_fixdate(ts));
+    c.day.push(day as i64); c.sod.push(sod as i64);
+    match r {
+        Ok(out) => {
+            let b = out.as_bytes();
+            push_date_fields(c, b);
+            if full { c.chars.push(b.iter().map(|&x| x as i64).collect()) }
+        }
+        Err(_) => {
+            c.wd.push("!panic".into()); c.dd.push(-1); c.mon.push("!panic".into()); c.yy.push(-1); c.hh.push(-1); c.mi.push(-1); c.ss.push(-1);
+            c.len.push(-1); c.frame.push("!panic".into());
+            if full { c.chars.push(vec![-1]) }
+        }
+    }
+}
+
+fn push_date_fields(c: &mut DateCols, b: &[u8]) {
+    c.wd.push(text(cut(b, 0, 3)));
+    c.dd.push(digits(cut(b, 5, 7)));
+    c.mon.push(text(cut(b, 8, 11)));
+    c.yy.push(digits(cut(b, 12, 16)));
+    c.hh.push(digits(cut(b, 17, 19)));
+    c.mi.push(digits(cut(b, 20, 22)));
+    c.ss.push(digits(cut(b, 23, 25)));
+    c.len.push(b.len() as i64);
+    let mut f = Vec::new();
+    for (a, z) in [(3, 5), (7, 8), (11, 12), (16, 17), (19, 20), (22, 23), (25, usize::MAX)] { f.extend_from_slice(cut(b, a, z)) }
+    c.frame.push(text(&f));
+}
+
+fn now() -> u64 { std::time::SystemTime::now().duration_since(std::time::UNIX_EPOCH).map(|d| d.as_secs()).unwrap_or(0) }
+
+/// the bytes of a real response as `Response::send` writes them
+fn send(res: ohkami::Response) -> Vec<u8> {
+    let mut w: Vec<u8> = Vec::new();
+    crate::util::block_on(async { ohkami::__verif::send(res, &mut w).await; });
+    w
+}
+
+/// wire-cl: Content-Length value bytes + Date header fields + the harness's own clock readings around the construction
+fn wire_cl(scn: &Value) -> Value {
+    let mut c = DateCols::default();
+    let (mut out, mut t0d, mut t0s, mut t1d, mut t1s, mut err) = (vec![], vec![], vec![], vec![], vec![], vec![]);
+    for sz in arr(&scn["sizes"]) {
+        let n = i(sz) as usize;
+        let r = std::panic::catch_unwind(|| {
+            let t0 = now();
+            let res = ohkami::Response::OK().with_text("x".repeat(n));
+            let t1 = now();
+            (t0, t1, send(res))
+        });
+        match r {
+            Ok((t0, t1, w)) => {
+                let p = crate::util::parse_response(&w, false);
+                let get = |name: &str| p.headers.iter().filter(|(k, _)| k.eq_ignore_ascii_case(name)).map(|(_, v)| v.clone()).collect::<Vec<_>>();
+                let (cl, date) = (get("Content-Length"), get("Date"));
+                if p.error.is_empty() && cl.len() == 1 && date.len() == 1 {
+                    out.push(cl[0].bytes().map(|x| x as i64).collect::<Vec<_>>());
+                    push_date_fields(&mut c, date[0].as_bytes());
+                    err.push(String::new());
+                } else {
+                    out.push(vec![]); push_date_fields(&mut c, b"");
+                    err.push(if !p.error.is_empty() { crate::util::clip(&p.error, 60) } else { format!("{} Content-Length, {} Date", cl.len(), date.len()) });
+                }
+                t0d.push((t0 / 86_400) as i64); t0s.push((t0 % 86_400) as i64); t1d.push((t1 / 86_400) as i64); t1s.push((t1 % 86_400) as i64);
+            }
+            Err(_) => { out.push(vec![-1]); push_date_fields(&mut c, b""); err.push("panic".into()); t0d.push(0); t0s.push(0); t1d.push(0); t1s.push(0) }
+        }
+    }
+    json!({"kind": "wire", "n": out.len(), "out": out, "err": err, "wd": c.wd, "dd": c.dd, "mon": c.mon, "yy": c.yy, "hh": c.hh, "mi": c.mi, "ss": c.ss,
+           "len": c.len, "frame": c.frame, "t0day": t0d, "t0sod": t0s, "t1day": t1d, "t1sod": t1s})
+}
+
+/// wire-chunk: the first chunk-size line of a one-message event stream and the number of bytes up to the chunk's closing CRLF
+fn wire_chunk(scn: &Value) -> Value {
+    let (mut out, mut follow, mut err) = (vec![], vec![], vec![]);
+    for sz in arr(&scn["sizes"]) {
+        let n = (i(sz) as usize).max(8) - 8;       // "data: " + payload + "\n\n"
+        let r = std::panic::catch_unwind(|| send(ohkami::Response::OK().with_stream(ohkami_lib::stream::once("y".repeat(n)))));
+        match r {
+            Ok(w) => {
+                // head, then  <size line> CRLF <data> CRLF "0" CRLF CRLF   (one chunk): located from both ends, independently of the size line's value
+                let tail: &[u8] = b"\r\n0\r\n\r\n";
+                let parts = crate::util::find(&w, b"\r\n\r\n").and_then(|he| {
+                    let rest = &w[he + 4..];
+                    let le = crate::util::find(rest, b"\r\n")?;
+                    if !rest.ends_with(tail) || rest.len() < le + 2 + tail.len() { return None }
+                    Some((rest[..le].to_vec(), rest.len() - (le + 2) - tail.len()))
+                });
+                match parts {
+                    Some((line, data)) if data < (1usize << 31) => { out.push(line.iter().map(|&x| x as i64).collect::<Vec<_>>()); follow.push(data as i64); err.push(String::new()) }
+                    _ => { out.push(vec![]); follow.push(0); err.push("no single chunk found".into()) }
+                }
+            }
+            Err(_) => { out.push(vec![-1]); follow.push(0); err.push("panic".into()) }
+        }
+    }
+    json!({"kind": "wire", "n": out.len(), "out": out, "follow": follow, "err": err})
+}
+
+fn dates_obs(c: DateCols, full: bool, echo: bool) -> Value {
+    let mut o = json!({"kind": "dates", "n": c.len.len(), "wd": c.wd, "dd": c.dd, "mon": c.mon, "yy": c.yy, "hh": c.hh, "mi": c.mi, "ss": c.ss,
+                       "len": c.len, "frame": c.frame});
+    if full { o["chars"] = json!(c.chars) }
+    if echo { o["day"] = json!(c.day); o["sod"] = json!(c.sod) }
+    o
+}
+
+fn limbs(v: u64) -> [i64; 4] { [(v & 0xffff) as i64, ((v >> 16) & 0xffff) as i64, ((v >> 32) & 0xffff) as i64, ((v >> 48) & 0xffff) as i64] }
+fn unlimbs(l: &[Value]) -> u64 { (0..4).fold(0u64, |a, k| a | ((i(&l[k]) as u64 & 0xffff) << (16 * k))) }
+
+fn one_num(f: &str, v: u64) -> Vec<i64> {
+    let n = v as usize;
+    let r = std::panic::catch_unwind(|| match f {
+        "itoa" => ohkami_lib::num::itoa(n).into_bytes(),
+        "hexized" => ohkami_lib::num::hexized(n).into_bytes(),
+        _ => ohkami_lib::num::hexized_bytes(n).to_vec(),
+    });
+    match r { Ok(b) => b.iter().map(|&x| x as i64).collect(), Err(_) => vec![-1] }
+}
+
+/// random 64-bit value: bit length uniform in 1..=64 (so every decimal / hexadecimal width occurs), top bit set
+fn rand_u64(rng: &mut Rng) -> u64 {
+    let bits = rng.range(1, 64) as u32;
+    let v = rng.next();
+    let v = if bits == 64 { v } else { v & ((1u64 << bits) - 1) };
+    v | (1u64 << (bits - 1))
+}
+
+pub fn run(scn: &Value) -> Value {
+    if std::mem::size_of::<usize>() != 8 { return json!({"kind": "tool-error", "what": "the check assumes a 64-bit usize"}) }
+    let kind = s(&scn["kind"]);
+    let full = i(&scn["full"]) == 1;
+    match kind {
+        "days" | "daylist" | "secs" | "ts-random" => {
+            let mut c = DateCols::default();
+            match kind {
+                "days" => { let sod = i(&scn["sod"]) as u64; for d in i(&scn["from"])..=i(&scn["to"]) { one_date(&mut c, d as u64, sod, full) } }
+                "daylist" => { let sod = i(&scn["sod"]) as u64; for d in arr(&scn["days"]) { one_date(&mut c, i(d) as u64, sod, full) } }
+                "secs" => { let d = i(&scn["day"]) as u64; for t in i(&scn["from"])..=i(&scn["to"]) { one_date(&mut c, d, t as u64, full) } }
+                _ => {
+                    let mut rng = Rng::new(i(&scn["seed"]) as u64 ^ 0xC20);
+                    for _ in 0..i(&scn["n"]) {
+                        let d = rng.next() % (LAST_DAY + 1);
+                        let t = rng.next() % 86_400;
+                        one_date(&mut c, d, t, full)
+                    }
+                }
+            }
+            dates_obs(c, full, kind == "ts-random")
+        }
+        "num-range" | "num-list" | "num-random" => {
+            let f = s(&scn["fn"]);
+            if !["itoa", "hexized", "hexized_bytes"].contains(&f) { return json!({"kind": "tool-error", "what": "unknown fn"}) }
+            let mut vals: Vec<u64> = vec![];
+            match kind {
+                "num-range" => { for n in i(&scn["from"])..=i(&scn["to"]) { vals.push(n as u64) } }
+                "num-list" => { for l in arr(&scn["vals"]) { vals.push(unlimbs(arr(l))) } }
+                _ => { let mut rng = Rng::new(i(&scn["seed"]) as u64 ^ 0x20C); for _ in 0..i(&scn["n"]) { vals.push(rand_u64(&mut rng)) } }
+            }
+            let out: Vec<Vec<i64>> = vals.iter().map(|&v| one_num(f, v)).collect();
+            let mut o = json!({"kind": "nums", "n": out.len(), "out": out});
+            if kind == "num-random" { o["vals"] = json!(vals.iter().map(|&v| limbs(v)).collect::<Vec<_>>()) }
+            o
+        }
+        "wire-cl" => wire_cl(scn),
+        "wire-chunk" => wire_chunk(scn),
+        _ => json!({"kind": "tool-error", "what": format!("unknown scenario kind {kind:?}")}),
+    }
+}
+
+/// Seeded random batches in the same vocabulary, beyond the ranges TLC emits.
+pub fn gen(rng: &mut Rng, n: usize) -> Value {
+    let seed = (rng.next() % 1_000_000_000) as i64;
+    match n % 6 {
+        0 => json!({"kind": "ts-random", "seed": seed, "n": 2000, "full": 1}),
+        1 => { let len = rng.range(200, 2000) as u64; let a = rng.next() % (LAST_DAY + 1 - len); json!({"kind": "days", "from": a, "to": a + len - 1, "sod": rng.below(86_400), "full": (n / 6) % 2}) }
+        2 => { let a = rng.below(86_400 - 2001); json!({"kind": "secs", "day": rng.next() % (LAST_DAY + 1), "from": a, "to": a + rng.range(200, 2000), "full": (n / 6) % 2}) }
+        3 => json!({"kind": "num-random", "fn": "itoa", "seed": seed, "n": 2000}),
+        4 => json!({"kind": "num-random", "fn": *rng.pick(&["hexized", "hexized_bytes"]), "seed": seed, "n": 2000}),
+        _ => {
+            // a run of consecutive values starting anywhere below 2^31 - 2^12 (crosses digit-count changes now and then)
+            let a = match rng.below(3) { 0 => 10u64.pow(rng.range(3, 9) as u32) - 500, 1 => 16u64.pow(rng.range(3, 7) as u32) - 500, _ => rng.next() % ((1u64 << 31) - 4096) };
+            json!({"kind": "num-range", "fn": *rng.pick(&["itoa", "hexized", "hexized_bytes"]), "from": a, "to": a + 999})
+        }
+    }
+}
